@@ -117,7 +117,7 @@ func inFragment(t gotypes.Type) bool {
 // starts with a digit, several packages with one leaf, zero-length arrays, ...) ----
 
 var c02pkgs = []string{"ex.test/a/type", "ex.test/b/type", "ex.test/c/9p", "ex.test/d/9p", "ex.test/e/func", "ex.test/a/v1", "ex.test/b/v1",
-	"ex.test/my-pkg/proto", "single", "local/out", "ex.test/x/go"}
+	"ex.test/my-pkg/proto", "single", "local/out", "ex.test/x/go", "ex.test/x/util", "ex.test/~bob/util", "ex.test/lib+x/util"}
 
 func c02comparable(n *TNode) bool {
 	switch n.Kind {
@@ -237,6 +237,9 @@ func c02synthetic(g *Gen) {
 		cls := []string{"raw", "synthetic"}
 		if useTracker {
 			cls = append(cls, "with-tracker")
+			if i%2 == 0 {
+				cls = append(cls, "import-lines-asked-midway")
+			}
 		} else {
 			cls = append(cls, "without-tracker")
 		}
@@ -254,6 +257,10 @@ func c02synthetic(g *Gen) {
 					bi("bool")}},
 			}
 			cls = append(cls, "nested-struct-after-struct")
+		case 2:
+			for _, p := range []string{"ex.test/x/util", "ex.test/~bob/util", "ex.test/lib+x/util"} {
+				forced = append(forced, &TNode{Kind: "slice", Kids: []*TNode{{Kind: "named", Pkg: p, Nm: "T"}}})
+			}
 		case 1:
 			for _, p := range []string{"x/b", "ab", "a/b", "a-b"} {
 				forced = append(forced, &TNode{Kind: "pointer", Kids: []*TNode{{Kind: "named", Pkg: p, Nm: "T"}}})
@@ -276,7 +283,13 @@ func c02synthetic(g *Gen) {
 			nm := rn.Name(obj)
 			names = append(names, atom(nm))
 			rendered = append(rendered, nm)
+			if useTracker && i%2 == 0 {
+				tr.ImportLines() // asked midway (a generator may ask per type): the final answer must still be complete
+			}
 			for _, s := range tySubterms(t, nil) {
+				if s.Kind == "named" && strings.ContainsAny(s.Pkg, "~+") {
+					cls = append(cls, "path-with-tilde-or-plus")
+				}
 				if s.Kind == "array" && s.Len == 0 {
 					cls = append(cls, "zero-length-array")
 				}
